@@ -5,7 +5,7 @@
   proposer's last one, which hands over or forks — lowers the proposer's dishonor.
 -/
 import DymVerif.Lemmas.CoreLevOwn
-namespace DymVerif.Core
+namespace DymVerif.Core.LevNs
 
 -- ---------------------------------------------------------------- generic field frames
 
@@ -261,4 +261,4 @@ theorem updateState_honors {s s' : St} {m : UpdMsg} {q : Seq} (hl : Lev s) (hq :
                     rw [getSeq_congr (indicateLiveness_seqs _ r4).1]
                     exact key
 
-end DymVerif.Core
+end DymVerif.Core.LevNs
